@@ -13,5 +13,10 @@ OBLIGATIONS = [
   Ob('C12.init_explicit', 'C12/qinit.cc', 'h_init_explicit', tier='quick', unwind=6, unwindset=['strlen.0:24'], defines={'_GLIBCXX_ASSERTIONS': 1}, max_alloc=64, timeout=900,
      bound='2 float attributes of arbitrary semantic type and 1..3 components, explicit quantization requested for either of them, ARBITRARY option values under every key 0..3 (bits, origin, range, set flags); option store replaced by a table model',
      covers='SequentialQuantizationAttributeEncoder::Init, SequentialIntegerAttributeEncoder::Init, SequentialAttributeEncoder::Init, GetPredictionMethodFromOptions, AttributeQuantizationTransform::SetParameters on real PointCloud / PointAttribute / encoder objects'),
+  Ob('C12.kd_init_explicit', 'C12/kdinit.cc', 'h_kd_init_explicit', tier='quick', unwind=6, unwindset=['strlen.0:24'], defines={'_GLIBCXX_ASSERTIONS': 1}, max_alloc=64, timeout=900, mem_gb=20, uf_float=True, fill_bound=6, diff=False, nodiff_reason='the quantization of the values is cut by stubs on the model side only',
+     stubs={'_ZN5draco18AttributeTransform24InitTransformedAttributeERKNS_14PointAttributeEi': 'havoc',
+            '_ZN5draco30AttributeQuantizationTransform18TransformAttributeERKNS_14PointAttributeERKSt6vectorINS_9IndexTypeIjNS_20PointIndex_tag_type_EEESaIS7_EEPS1_': 'ret1'},
+     bound='(creation and filling of the portable attribute cut by stubs: the subject is the choice of the parameters) kd-tree attributes encoder with one float attribute (1 value x 1 component, any float) at attribute id 1 of arbitrary semantic type (its type enum value differs from its id in general), explicit quantization requested with ANY positive range, ARBITRARY option values under every key 0..3; option store replaced by a table model',
+     covers='KdTreeAttributesEncoder::TransformAttributesToPortableFormat (float path), AttributeQuantizationTransform::SetParameters / InitTransformedAttribute / TransformAttribute'),
 ]
 META = {}
